@@ -10,7 +10,11 @@ prop("C16",
                 "(`compileSets`/`compileTable`) is compared with the dump of the REAL policy manager on every run, "
                 "and the walk runs on the real dump. A second stream drives UPDATE transitions on a live manager over the "
                 "strict fakes (ipBlock surgery, pod relabel, policies deleted down to zero, one failing ipset create) and "
-                "compares the final sets / rules and every flow verdict with a from-scratch compile of the final state.",
+                "compares the final sets / rules and every flow verdict with a from-scratch compile of the final state; "
+                "in that stream the kernel state is ALSO judged right after every single event handler (before any "
+                "periodic sync): all flows walked on the real dump vs a from-scratch compile of the current cluster "
+                "(`event-state-denies-allowed` / `event-state-accepts-forbidden`; the stale membership UpdatePod leaves "
+                "behind is known finding `relabel-stale-membership-until-resync`, theorem `counter_relabel_stale`).",
      level_note="model of the compiler hand-written, tied to /repo by (T) regenerated prefixes / set-name formats / rule "
                 "templates / defaulting functions / shape facts (Generated/Policy.lean; template_* and fact_* theorems) and "
                 "(X) equality of the canonical dump of the real code with the model's compile output on generated "
